@@ -164,6 +164,8 @@ func propC13(c *Ctx, r *Report) {
 	hold := c.fn("node.Pegnetd.ApplyTransactionBatchesInHolding")
 
 	// PEG destination invalid from 2.0 (holding path)
+	ruleRatesReadOnly(c, r, "C13/rates-read-only")
+	ruleRatesReadComplete(c, r, "C13/rates-read-complete")
 	// averages handed to Convert are not themselves gated by an era (shared with C07)
 	ruleAveragesEraFree(c, r, "C13/averages-era-free")
 	r.rule("C13/peg-disabled", 3, "conversions into PEG are rejected from PegNet 2.0 on")
